@@ -130,8 +130,15 @@ impl<T: Item + ItemA + 'static, const WK: bool> Sess<T, WK> {
         macro_rules! it { ($f:expr) => { match &mut $f { Slot::Att(b) => stat(b), _ => return None } } }
         macro_rules! fut { ($k:expr, $f:expr, $map:expr) => {{ let mut f = $f; let h: Held<T> = Box::new(move |w: &Waker| { let mut cx = Context::from_waker(w);
             match Pin::new(&mut f).poll(&mut cx) { Poll::Pending => Poll::Pending, Poll::Ready(None) => Poll::Ready(None), Poll::Ready(Some(x)) => Poll::Ready(Some($map(x))) } }); Some(($k, h)) }} }
+        #[cfg(not(feature = "vmem"))]
         let sl = |(h, t): (&'static mut [T], &'static mut [T])| Raw::Sl(h.as_ptr(), h.len(), t.as_ptr(), t.len());
+        #[cfg(not(feature = "vmem"))]
         let sln = |(h, t): (&'static [T], &'static [T])| Raw::Sl(h.as_ptr(), h.len(), t.as_ptr(), t.len());
+        // vmem: ONE slice through the mirror (it may run past the physical end into the second view)
+        #[cfg(feature = "vmem")]
+        let sl = |h: &'static mut [T]| Raw::Sl(h.as_ptr(), h.len(), h.as_ptr(), 0);
+        #[cfg(feature = "vmem")]
+        let sln = |h: &'static [T]| Raw::Sl(h.as_ptr(), h.len(), h.as_ptr(), 0);
         macro_rules! common { ($k:expr, $slot:expr) => { match words[0] {
             "get1" => { let a = it!($slot); fut!($k, a.get_workable(), |x: &'static mut T| Raw::Ptr(x as *const T)) }
             "getn" => { let a = it!($slot); fut!($k, a.get_workable_slice_exact(num(2)), sl) }
@@ -409,7 +416,14 @@ fn run_session<T: Item + ItemA + 'static, const WK: bool>(mut s: Sess<T, WK>, li
 
 fn build<T: Item>(init: &[u64]) -> Vec<T> { init.iter().map(|v| if *v == 0 { T::zero() } else { T::make(*v) }).collect() }
 
+/// number of mappings of the shared-memory object behind a vmem buffer that are still present
+fn vmem_maps() -> usize { std::fs::read_to_string("/proc/self/maps").map(|m| m.lines().filter(|l| l.contains("mrb-")).count()).unwrap_or(0) }
+
 fn run_cfg<T: Item + ItemA + 'static>(l: &str, lines: &[String], pos: &mut usize, out: &mut impl Write) {
+    run_cfg_inner::<T>(l, lines, pos, out);
+    if l.contains("vmem=1") { writeln!(out, "maps={}", vmem_maps()).unwrap(); }
+}
+fn run_cfg_inner<T: Item + ItemA + 'static>(l: &str, lines: &[String], pos: &mut usize, out: &mut impl Write) {
     let mut stages = 2; let mut init = vec![]; let mut ctor = "from".to_string();
     for w in l.split_whitespace().skip(1) { let (k, v) = w.split_once('=').unwrap();
         match k { "stages" => stages = v.parse().unwrap(), "init" => init = ints(v), "ctor" => ctor = v.into(), _ => {} } }
